@@ -2,6 +2,8 @@
 """Development tool: confirm a seeded breaking change and measure which checks detect it.
    mutest.py confirm <mutdir> [features]    -> scratch worktree: existing tests pass with the patch, demo fails with / passes without
    mutest.py detect  <mutdir> <Cxx> [...]   -> git apply in /repo, run ./check Cxx --tier quick, undo
+   mutest.py benign  <dir>                  -> a change claimed to keep every property: suite passes (both feature sets), then
+                                               all 17 quick checks with it applied; any VIOLATION must be explained
 A <mutdir> holds patch.diff and demo.rs."""
 import os, subprocess, sys, shutil, json, time
 
@@ -68,9 +70,39 @@ def detect(mutdir, pids, tier="quick"):
     return res
 
 
+def benign(mutdir):
+    name = "ben_" + os.path.basename(mutdir.rstrip("/"))
+    wt = os.path.join(SCR, name)
+    os.makedirs(SCR, exist_ok=True)
+    sh("git -C %s worktree remove --force %s" % (REPO, wt))
+    rc, out = sh("git -C %s worktree add -q --detach %s HEAD" % (REPO, wt))
+    assert rc == 0, out
+    env = dict(os.environ, CARGO_TARGET_DIR=os.path.join(SCR, "target"), CARGO_NET_OFFLINE="true")
+    res = {}
+    try:
+        rc, out = sh("git apply %s" % os.path.join(mutdir, "patch.diff"), cwd=wt)
+        res["applies"] = rc == 0
+        if rc != 0:
+            res["apply_out"] = out[-500:]
+            return res
+        rc, out = sh("cargo test --offline 2>&1 | grep -E 'test result|FAILED|error(\\[|:)'", cwd=wt, env=env)
+        res["suite_passes"] = ("FAILED" not in out) and ("error" not in out) and ("38 passed" in out)
+        rc, out = sh("cargo test --offline --features rust-secp256k1,ed25519 2>&1 | grep -E 'test result|FAILED|error(\\[|:)'", cwd=wt, env=env)
+        res["suite_passes_all_features"] = ("FAILED" not in out) and ("error" not in out)
+    finally:
+        sh("git -C %s worktree remove --force %s" % (REPO, wt))
+    if res["suite_passes"] and res["suite_passes_all_features"]:
+        d = detect(mutdir, ["C%02d" % i for i in range(1, 18)])
+        res["alarms"] = {p: v["lines"] for p, v in d.items() if v["rc"] != 0}
+        res["silent"] = sorted(p for p, v in d.items() if v["rc"] == 0)
+    return res
+
+
 if __name__ == "__main__":
     cmd = sys.argv[1]
     if cmd == "confirm":
         print(json.dumps(confirm(sys.argv[2], sys.argv[3] if len(sys.argv) > 3 else ""), indent=1))
+    elif cmd == "benign":
+        print(json.dumps(benign(sys.argv[2]), indent=1))
     elif cmd == "detect":
         print(json.dumps(detect(sys.argv[2], sys.argv[3:]), indent=1))
